@@ -258,8 +258,15 @@ func (Sim) Run(raw json.RawMessage, prop string, keep bool) (res simfw.Result) {
 	if st.LockWaits > 0 {
 		res.Probe("lock-contention")
 	}
+	if res.Probes == nil {
+		res.Probes = map[string]int{}
+	}
+	res.Probes["sites-executed"] += st.SitesCovered
 	if st.Overrun {
 		res.Inconcl = "step cap reached"
+	}
+	if res.Probes == nil {
+		res.Probes = map[string]int{}
 	}
 	res.Probe("policy-" + s.Policy.Kind)
 	if s.MapSeed != 0 {
@@ -319,7 +326,7 @@ func (Sim) Run(raw json.RawMessage, prop string, keep bool) (res simfw.Result) {
 					fmt.Sprintf("caller %d op %d (%s) returned %q among %d concurrent callers but %q when run alone (policy %s, %d switches)", g, k, op.Kind, outcomes[g][k], ng, alone, s.Policy.Kind, len(st.Trace)))
 			}
 			if strings.HasPrefix(alone, "panic") {
-				res.Probe("op-panics-alone")
+				res.Probe("callback-crash-inside-call")
 			}
 		}
 	}
